@@ -204,6 +204,8 @@ pub struct LabelCache {
     /// oldest first
     order: Vec<Key>,
     evicted: BTreeSet<Key>,
+    /// removed by an explicit unspend (skip / rollback) and not written since
+    released: BTreeSet<Key>,
     /// every key ever written
     pub ever: BTreeSet<Key>,
 }
@@ -218,6 +220,7 @@ impl LabelCache {
             cap,
             order: Vec::new(),
             evicted: BTreeSet::new(),
+            released: BTreeSet::new(),
             ever: BTreeSet::new(),
         }
     }
@@ -226,6 +229,7 @@ impl LabelCache {
         self.order.retain(|x| x != &k);
         self.order.push(k);
         self.evicted.remove(&k);
+        self.released.remove(&k);
         self.ever.insert(k);
         while self.order.len() > self.cap {
             let old = self.order.remove(0);
@@ -235,6 +239,11 @@ impl LabelCache {
 
     pub fn pop(&mut self, k: &Key) {
         self.order.retain(|x| x != k);
+        self.released.insert(*k);
+    }
+
+    pub fn released(&self, k: &Key) -> bool {
+        self.released.contains(k)
     }
 
     pub fn forgot(&self, k: &Key) -> bool {
@@ -270,6 +279,9 @@ pub struct Model {
     /// inputs spent by committed transactions the pool itself knew (pooled or handed
     /// out at import): the pool must refuse them even if its storage view lags
     pub known_spent: BTreeSet<Key>,
+    /// admissions not judged because the input had two claimants and the other one
+    /// was skipped / rolled back (see `claim_released`)
+    pub excluded_released: std::sync::atomic::AtomicU64,
     /// subset: the committed transaction was pooled and never extracted locally
     pub pooled_committed_inputs: BTreeSet<Key>,
     pub seq: u64,
@@ -288,6 +300,7 @@ impl Model {
             cache: LabelCache::new(cache_capacity),
             stale_stats: BTreeSet::new(),
             known_spent: BTreeSet::new(),
+            excluded_released: Default::default(),
             pooled_committed_inputs: BTreeSet::new(),
             seq: 0,
         }
@@ -316,6 +329,21 @@ impl Model {
 
     pub fn unsettled_contract(&self, c: &ContractId) -> bool {
         self.unsettled.values().any(|x| x.contracts.contains(c))
+    }
+
+    /// The pool lets a transaction spend an output of a POOLED parent without looking
+    /// at its spent marks, so an input can end up claimed by two unsettled
+    /// transactions (e.g. one preconfirmed, one handed out later). When one of them
+    /// is skipped or rolled back the pool releases the mark by key. Such keys are
+    /// outside the handed-out rule's domain; the admissions are counted, not judged.
+    pub fn claim_released(&self, k: &Key) -> bool {
+        if self.cache.released(k) {
+            self.excluded_released
+                .fetch_add(1, std::sync::atomic::Ordering::Relaxed);
+            true
+        } else {
+            false
+        }
     }
 
     /// Can the harness show that the bounded spent-input cache has dropped `k`
